@@ -264,6 +264,7 @@ class FuncTranslator:
         self.may_raise = False
         self.uses_ok = False
         self.in_err_loop = False
+        self.loop_depth = 0
         self.tmp = 0
 
     # ---- expressions: returns (lean text, type)
@@ -277,6 +278,8 @@ class FuncTranslator:
                 return ("true" if e.value else "false"), "bool"
             if isinstance(e.value, int):
                 return f"({e.value} : Int)", "int"
+            if isinstance(e.value, float) and e.value == 0.0 and (self.spec.get("scalar") or self.spec.get("ones")):
+                return "(0 : α)", "scalar"
             if isinstance(e.value, float) and self.spec.get("field"):
                 from fractions import Fraction as _F
                 fr = _F(e.value)                   # the double, exactly
@@ -591,6 +594,12 @@ class FuncTranslator:
         if name in ("max", "min") and len(args) == 2 and not kw:
             a, at = self.expr(args[0])
             b, bt = self.expr(args[1])
+            if {at, bt} == {"int", "scalar"} and not self.spec.get("field"):
+                # `max(x, 0)` with an int literal zero next to a float: the literal is promoted
+                if at == "int" and a in ("(0 : Int)",):
+                    a, at = "(0 : α)", "scalar"
+                elif bt == "int" and b in ("(0 : Int)",):
+                    b, bt = "(0 : α)", "scalar"
             a, b, t = self.unify_num(a, at, b, bt)
             if t not in ("scalar", "int"):
                 raise Unsupported(f"{name} of {t}")
@@ -774,6 +783,22 @@ class FuncTranslator:
                     lines.append(f"{pad}let {nm} := Py.popLast {nm}")
             elif isinstance(s, ast.For):
                 lines += self.for_loop(s, ind, stmts[k + 1:], top)
+            elif isinstance(s, ast.If) and len(s.body) == 1 and isinstance(s.body[0], ast.Continue) and not s.orelse \
+                    and tail_vars is not None and self.loop_depth > 0:
+                # `if c: continue` in a loop body: the rest of the body runs only when c is false
+                c = self.as_bool(*self.pure_expr(s.test))
+                saved = dict(self.env)
+                rest_lines = self.block(stmts[k + 1:], ind + 2, tail_vars=tail_vars)
+                self.env = saved
+                self.tmp += 1
+                res = f"r_{self.tmp}"
+                lines.append(f"{pad}let {res} := if {c} then ({self.tuple_of(tail_vars)})")
+                lines.append(f"{pad}  else (")
+                lines += rest_lines
+                lines[-1] += ")"
+                lines += self.unpack(tail_vars, res, pad)
+                lines.append(pad + self.tuple_of(tail_vars))
+                return lines
             elif isinstance(s, ast.If):
                 if len(s.body) == 1 and isinstance(s.body[0], ast.Raise) and not s.orelse:
                     if not top:
@@ -958,10 +983,12 @@ class FuncTranslator:
         self.tmp += 1
         st = f"s_{self.tmp}"
         inner = []
+        self.loop_depth += 1
         inner += self.unpack(carried, st, "  " * (ind + 2))
         if prelude:
             inner.append("  " * (ind + 2) + prelude.rstrip("; ").replace("; ", "\n" + "  " * (ind + 2)))
         inner += self.block(s.body, ind + 2, tail_vars=carried)
+        self.loop_depth -= 1
         newenv = dict(self.env)
         self.env = saved
         self.in_err_loop = saved_err
